@@ -3,7 +3,6 @@
 Floats cross the line protocol as their 64-bit IEEE-754 image (an int), so the Lean model of the
 PTS helpers is compared with CPython bit for bit."""
 import struct
-from fractions import Fraction
 from ..core import Adapter, register, FUNCS
 import AcraNetwork.MPEGTS as mpegts
 import AcraNetwork.MPEG.PMT as pmt
@@ -46,7 +45,3 @@ FUNCS["pts_to_ts"] = lambda v: f2b(pes.pts_to_ts(v))
 FUNCS["ts_to_pts"] = lambda bits: pes.ts_to_pts(b2f(bits))
 FUNCS["ts_to_buf"] = lambda bits: pes.ts_to_buf(b2f(bits))
 FUNCS["buf_to_ts"] = lambda b: f2b(pes.buf_to_ts(b))
-# the float model on its own (CPython's int/int true division is correctly rounded)
-FUNCS["f64.div"] = lambda n, d: f2b(n / d)
-FUNCS["f64.mul90k"] = lambda bits: f2b(b2f(bits) * 90e3)
-FUNCS["f64.round"] = lambda bits: round(b2f(bits))
